@@ -49,7 +49,9 @@ def plan_st(draw, tier):
            "arm_kind": kind}
     fam = draw(st.sampled_from(["E", "Eint", "F3"]))
     h = gen.History(draw, cfg, reward_family="E" if fam == "F3" else fam,
-                    grid=draw(st.sampled_from(["int", "half", "real"])), d=draw(st.integers(1, 5)), max_rows=10)
+                    grid=draw(st.sampled_from(["int", "half", "real"])),
+                    # (now and then wide contexts: implementations switch algorithms with the size of the system)
+                    d=draw(st.sampled_from([1, 2, 3, 4, 5] * 4 + [16, 32, 33, 50])), max_rows=10)
     h.fit()
     if draw(st.booleans()) and h.can_add():
         h.add_arm()
